@@ -170,7 +170,7 @@ def main():
             if k in seen:
                 continue
             seen.add(k)
-            wp.append(SpPkg(1000 + bi * 200 + li, bases[bi], sc, sp))
+            wp.append(SpPkg(1000 + bi * 2000 + li, bases[bi], sc, sp))        # (distinct directories also when all spellings are used)
     good, bad = we.prepare(wp, yardl, home, langs=("py",))
     for p in bad:
         c.note("layout package unusable: %s" % (p.problem or "")[:300])
